@@ -19,6 +19,7 @@
  *   S <step> w<W> t<A> <spin-id> <obj>
  *   E <step> w<W> t<A> <event-id> <obj> <val>
  *   V <verdict> ...
+ * The E lines of alloc.desc / free.desc end in " | d<k>": the record's identity (first-seen order of its address).
  * A = acting user thread (the blocking thread inside a context-switch callback, else the worker's
  * current thread, '-' in the scheduler).  Addresses never appear: threads are t<tag> (tags fixed
  * by the program), objects carry their program names, stacks are s<k> in first-seen order.
@@ -73,7 +74,7 @@ typedef struct { op_t * ops; int n; } prog_t;
 static obj_t objs[MAXO]; static int n_objs;
 static prog_t progs[MAXT]; static int n_threads;
 static prog_t scripts[32];
-static int n_workers = 2, pswitch = 30, rpoint = 1;
+static int n_workers = 2, pswitch = 30, rpoint = 1, msnap = 0;
 static long maxsteps = 200000, clock_step = 1000;
 static uint64_t seed = 1;
 static int dflt_parent_first = 0;
@@ -91,6 +92,7 @@ static char last_id[MAXW][32]; static const void * last_obj[MAXW];
 static myth_thread_t thr_ptr[MAXT];
 static int pending_tag[MAXW];
 static void * stk_ptr[MAXSTK]; static int n_stk;
+static const void * dsc_ptr[MAXSTK]; static int n_dsc;
 static volatile int main_done;
 static volatile long vclock_reads;
 static int finished[MAXT], started[MAXT];
@@ -124,6 +126,30 @@ static const char * aname(int w, char * buf) {
   if (t == -1) strcpy(buf, "-"); else if (t == -2) strcpy(buf, "t?");
   else sprintf(buf, "%c%d", cb_thread[w] ? 'c' : 't', t);
   return buf;
+}
+
+/* machine snapshot (case option `msnap 1`): after every trace line, one line
+     M cur=[<tN | - | cb:tN>,..] dq=[[base..top],..]
+   per-worker current thread (cb:tN = the worker is inside a context-switch callback of tN) and
+   run-queue contents, base (thief end) first.  Read while every other participant is parked
+   outside queue operations. */
+static void machine_snapshot(void) {
+  char b[16];
+  if (!msnap) return;
+  fprintf(tr, "M cur=[");
+  for (int w = 0; w < n_workers; w++) {
+    if (cb_thread[w]) fprintf(tr, "%scb:%s", w ? "," : "", tname(cb_thread[w], b));
+    else fprintf(tr, "%s%s", w ? "," : "", tname(g_envs[w].this_thread, b));
+  }
+  fprintf(tr, "] dq=[");
+  for (int w = 0; w < n_workers; w++) {
+    myth_thread_queue_t q = &g_envs[w].runnable_q;
+    fprintf(tr, "%s[", w ? "," : "");
+    int bs = q->base, tp = q->top;
+    for (int i = bs; i < tp && i - bs < 1000; i++) fprintf(tr, "%s%s", i > bs ? " " : "", tname(q->ptr[i], b));
+    fprintf(tr, "]");
+  }
+  fprintf(tr, "]\n");
 }
 
 static void verdict_and_exit(const char * v, int code) {
@@ -168,19 +194,26 @@ static void spin_switch(int me) {
 }
 
 /* called from our steal function when a worker found nothing to run */
+static void machine_snapshot(void);
 static void ctl_idle(int w) {
   if (!ctl_on) {
     /* arming: park at the canonical idle point until the main thread starts the controlled run */
-    if (g_myth_random_temp == 0 || 1) g_myth_random_temp = (unsigned)(seed * 31 + w + 1);
+    g_myth_random_temp = (unsigned)(seed * 31 + w + 1);
     st[w] = 2; spin_mark[w] = 0;
     __sync_fetch_and_add(&n_parked_idle, 1);
     sem_wait(&sem[w]);
     st[w] = 0;
+    step_no++;
+    fprintf(tr, "S %ld w%d t- sched.start -\n", step_no, w);
+    machine_snapshot();
     return;
   }
+  /* every line is written when the participant proceeds (holding the token), so that the code
+     after a line runs contiguously until the participant's next hook */
+  spin_switch(w);
   step_no++;
   fprintf(tr, "S %ld w%d t- sched.idle -\n", step_no, w);
-  spin_switch(w);
+  machine_snapshot();
 }
 
 /* ------------------------------------------------------------- snapshots -- */
@@ -236,7 +269,7 @@ static obj_t * find_obj(const void * p, const char * id) {
 static int is_thread_point(const char * id) {
   return !strncmp(id, "join.", 5) || !strncmp(id, "tryjoin.", 8) || !strncmp(id, "detach.", 7) ||
          !strncmp(id, "finish.", 7) || !strncmp(id, "create.", 7) || !strncmp(id, "cb.", 3) ||
-         !strncmp(id, "yield.", 6) || !strncmp(id, "alloc.desc", 10) || !strncmp(id, "free.desc", 9);
+         !strncmp(id, "yield.", 6) || !strncmp(id, "sched.", 6) || !strncmp(id, "steal.", 6) || !strncmp(id, "alloc.desc", 10) || !strncmp(id, "free.desc", 9);
 }
 static int passthrough(const char * id) {
   return !strncmp(id, "wsq.", 4) || !strncmp(id, "spin.", 5) || !strncmp(id, "key.", 4);
@@ -283,15 +316,27 @@ static void ctl_cb(int kind, const char * id, const void * obj, long val) {
   step_no++;
   if (kind == MYTH_VERIF_KIND_EVENT) {
     fprintf(tr, "E %ld w%d %s %s ", step_no, w, aname(w, b), id);
-    pr_objref(id, obj); fprintf(tr, " "); pr_val(val); fprintf(tr, "\n");
+    pr_objref(id, obj); fprintf(tr, " "); pr_val(val);
+    if (!strcmp(id, "alloc.desc") || !strcmp(id, "free.desc")) {
+      /* record identity: d<k> in first-seen order of the record's address (additive field, C13) */
+      int k = -1;
+      for (int i = 0; i < n_dsc; i++) if (dsc_ptr[i] == obj) k = i;
+      if (k < 0 && n_dsc < MAXSTK) { k = n_dsc; dsc_ptr[n_dsc++] = obj; }
+      fprintf(tr, " | d%d", k);
+    }
+    fprintf(tr, "\n");
+  machine_snapshot();
     if (!strcmp(id, "cb.leave")) cb_thread[w] = 0;
     if (!strcmp(id, "finish.enter")) { int t = tag_of(obj); if (t >= 0) finished[t] = 1; }
     return;
   }
   if (kind == MYTH_VERIF_KIND_SPIN) {
+    step_no--;
+    if (soft_spin(id)) maybe_switch(w); else spin_switch(w);
+    step_no++;
     fprintf(tr, "S %ld w%d %s %s ", step_no, w, aname(w, b), id);
     pr_objref(id, obj); fprintf(tr, "\n");
-    if (soft_spin(id)) maybe_switch(w); else spin_switch(w);
+    machine_snapshot();
     return;
   }
   /* POINT: the scheduling decision comes first, the line is written when this participant
@@ -304,6 +349,7 @@ static void ctl_cb(int kind, const char * id, const void * obj, long val) {
   if (is_thread_point(id)) { if (tag_of(obj) >= 0) snapshot_thread((myth_thread_t)obj); }
   else { obj_t * o = find_obj(obj, id); if (o) snapshot_obj(o); }
   fprintf(tr, "\n");
+  machine_snapshot();
   if (strcmp(last_id[w], id) || last_obj[w] != obj) moves++;
   strncpy(last_id[w], id, 31); last_obj[w] = obj;
 }
@@ -334,6 +380,7 @@ static myth_thread_t ctl_steal(int rank) {
   if (ctl_on) {
     char b[16]; step_no++; moves++;
     fprintf(tr, "E %ld w%d - steal.got %s 0\n", step_no, rank, tname(t, b));
+  machine_snapshot();
   }
   return t;
 }
@@ -351,14 +398,16 @@ static void ev_call(int T, op_t * o) {
   fprintf(tr, "C %ld w%d t%d", step_no, w, T);
   for (int i = 0; i < o->n; i++) fprintf(tr, " %s", o->w[i]);
   fprintf(tr, "\n");
+  machine_snapshot();
   last_id[w][0] = 0;
 }
 static void ev_ret(int T, long val, const char * extra) {
   int w = my_rank();
+  if (rpoint) maybe_switch(w);
   step_no++; moves++;
   fprintf(tr, "R %ld w%d t%d ret %ld%s%s\n", step_no, w, T, val, extra[0] ? " " : "", extra);
+  machine_snapshot();
   last_id[w][0] = 0;
-  if (rpoint) maybe_switch(w);
 }
 
 static void run_ops(int T, prog_t * p, void ** exit_val);
@@ -367,10 +416,12 @@ static void once_routine(void) {
   void * dummy = 0;
   int w = my_rank(); step_no++; moves++;
   fprintf(tr, "E %ld w%d t%d once.init.begin - %ld\n", step_no, w, once_T, once_script);
+  machine_snapshot();
   int T = once_T; long s = once_script;
   run_ops(T, &scripts[s], &dummy);
   w = my_rank(); step_no++; moves++;
   fprintf(tr, "E %ld w%d t%d once.init.end - %ld\n", step_no, w, T, s);
+  machine_snapshot();
 }
 
 static void * thread_main(void * arg) {
@@ -422,11 +473,32 @@ static void run_ops(int T, prog_t * p, void ** exit_val) {
       void * v = 0; struct timespec ts; ctl_clock(&ts);
       long ns = ts.tv_nsec + num(o->w[2]); ts.tv_sec += ns / 1000000000L; ts.tv_nsec = ns % 1000000000L;
       r = myth_timedjoin(thr_ptr[num(o->w[1])], &v, &ts); sprintf(ex, "val=%ld", (long)v);
+    } else if (!strcmp(op, "tryjoinw") || !strcmp(op, "timedjoinw")) {
+      /* tryjoinw T : repeat { tryjoin T } until it returns 0, yielding in between;
+         timedjoinw T ns : repeat { timedjoin T ns } until 0.  Every attempt is logged as its own call (C13) */
+      int timed = !strcmp(op, "timedjoinw"); long attempts = 0;
+      for (;;) {
+        op_t w1; memset(&w1, 0, sizeof(w1)); w1.n = timed ? 3 : 2;
+        strcpy(w1.w[0], timed ? "timedjoin" : "tryjoin"); strcpy(w1.w[1], o->w[1]); if (timed) strcpy(w1.w[2], o->w[2]);
+        ev_call(T, &w1);
+        void * v = 0; int rr; char e2[32];
+        if (timed) {
+          struct timespec ts; ctl_clock(&ts);
+          long ns = ts.tv_nsec + num(o->w[2]); ts.tv_sec += ns / 1000000000L; ts.tv_nsec = ns % 1000000000L;
+          rr = myth_timedjoin(thr_ptr[num(o->w[1])], &v, &ts);
+        } else rr = myth_tryjoin(thr_ptr[num(o->w[1])], &v);
+        sprintf(e2, "val=%ld", (long)v);
+        ev_ret(T, rr, e2); attempts++;
+        if (rr == 0) break;
+        if (!timed) myth_yield();
+      }
+      sprintf(ex, "attempts=%ld", attempts);
     } else if (!strcmp(op, "detach")) {
       r = myth_detach(thr_ptr[num(o->w[1])]);
     } else if (!strcmp(op, "exit")) {
       int w = my_rank(); step_no++; moves++;
       fprintf(tr, "R %ld w%d t%d ret 0 exiting=%ld\n", step_no, w, T, num(o->w[1]));
+  machine_snapshot();
       myth_exit((void *)num(o->w[1]));
     } else if (!strcmp(op, "retval")) {
       *exit_val = (void *)num(o->w[1]);
@@ -511,7 +583,7 @@ static void run_ops(int T, prog_t * p, void ** exit_val) {
     } else if (!strcmp(op, "add")) {
       obj_t * x = obj_named(o->w[1]); long v = x->u.v;
       /* read and write are two separate steps so that a missing lock shows as a lost update */
-      { int w = my_rank(); step_no++; moves++; fprintf(tr, "E %ld w%d t%d var.read %s %ld\n", step_no, w, T, x->name, v); maybe_switch(w); }
+      { int w = my_rank(); maybe_switch(w); step_no++; moves++; fprintf(tr, "E %ld w%d t%d var.read %s %ld\n", step_no, w, T, x->name, v); machine_snapshot(); }
       x->u.v = v + num(o->w[2]); r = x->u.v;
     } else if (!strcmp(op, "get")) {
       r = obj_named(o->w[1])->u.v;
@@ -558,6 +630,7 @@ static void load_case(const char * path) {
     else if (!strcmp(k, "seed")) seed = strtoull(rest, 0, 0);
     else if (!strcmp(k, "pswitch")) pswitch = atoi(rest);
     else if (!strcmp(k, "rpoint")) rpoint = atoi(rest);
+    else if (!strcmp(k, "msnap")) msnap = atoi(rest);
     else if (!strcmp(k, "maxsteps")) maxsteps = atol(rest);
     else if (!strcmp(k, "clockstep")) clock_step = atol(rest);
     else if (!strcmp(k, "parentfirst")) dflt_parent_first = atoi(rest);
@@ -621,6 +694,6 @@ int main(int argc, char ** argv) {
   run_ops(0, &progs[0], &rv);
   main_done = 1; finished[0] = 1;
   /* let the remaining runnable work (detached threads) drain: behave like an idle participant */
-  for (;;) { int w = my_rank(); step_no++; fprintf(tr, "S %ld w%d t0 main.done -\n", step_no, w); spin_switch(w); myth_yield(); }
+  for (;;) { int w = my_rank(); spin_switch(w); step_no++; fprintf(tr, "S %ld w%d t0 main.done -\n", step_no, w); machine_snapshot(); myth_yield(); }
   return 0;
 }
